@@ -1311,6 +1311,9 @@ sse_rule_convslq (OrcCompiler *p, void *user, OrcInstruction *insn)
 
   orc_sse_emit_movdqa (p, src, tmp);
   orc_sse_emit_psrad_imm (p, 31, tmp);
+  if (src != dest) {
+    orc_sse_emit_movdqa (p, src, dest);
+  }
   orc_sse_emit_punpckldq (p, tmp, dest);
 }
 
